@@ -164,6 +164,9 @@ func (c *monC18) After(m *Machine, s *Step) *Violation {
 			if op.F && s.Secret != "" && recoveryInList(s.Pre.Users[who].RecoveryCodes, s.Secret) && recoveryInList(post.Users[who].RecoveryCodes, s.Secret) {
 				return violation("C18", sig("session-without-consumption"), "2FA login of %q by recovery code issued a session but the code is still in storage", who)
 			}
+			if op.K == "totpvalidate" && !op.F && m.C.Cfg.OneTimeTOTP && loggedIn && post.Users[who].TOTPLastCode != s.Secret {
+				return violation("C18", sig("session-without-consumption")+":totp-last-code", "with replay protection on, TOTP login of %q issued a session but the used code was not saved as spent (stored last code %q)", who, post.Users[who].TOTPLastCode)
+			}
 		case "recend":
 			if u, ok := post.Users[who]; ok && tokenMatches(s.Secret, u.RecoverSelector, u.RecoverVerifier) {
 				return violation("C18", sig("session-without-consumption"), "recover-and-login issued a session for %q but the recovery token is still in storage", who)
@@ -232,6 +235,7 @@ type c18Scenario struct {
 	Target Op
 	After  []Op
 	Min    bool // minimal configuration: no lock/confirm/remember, no TOTP replay protection (fewer later saves that could mask a lost one)
+	OneTime bool // with Min: keep TOTP replay protection on
 }
 
 func c18Cfg(err500 bool, emailAuth bool) harness.Config {
@@ -297,6 +301,8 @@ func c18Scenarios() []c18Scenario {
 		{Name: "totp-validate-code", Setup: []Op{login1}, Target: Op{K: "totpvalidate", A: 1, Src: "totp", SA: 1}},
 		{Name: "totp-validate-recovery", Setup: []Op{login1}, Target: Op{K: "totpvalidate", A: 1, Src: "rec", SA: 1, F: true},
 			After: []Op{{K: "newsess"}, login1, {K: "totpvalidate", A: 1, Src: "rec", SA: 1, F: true}}},
+		{Name: "totp-validate-code-min-onetime", Min: true, OneTime: true, Setup: []Op{login1}, Target: Op{K: "totpvalidate", A: 1, Src: "totp", SA: 1},
+			After: []Op{{K: "newsess"}, login1, {K: "totpvalidate", A: 1, Src: "totp", SA: 1}}},
 		{Name: "totp-validate-recovery-min", Min: true, Setup: []Op{login1}, Target: Op{K: "totpvalidate", A: 1, Src: "rec", SA: 1, F: true},
 			After: []Op{{K: "newsess"}, login1, {K: "totpvalidate", A: 1, Src: "rec", SA: 1, F: true}}},
 		{Name: "sms-validate-recovery-min", Min: true, Setup: []Op{login2}, Target: Op{K: "smsvalidate", A: 2, Src: "rec", SA: 2, F: true},
@@ -344,7 +350,7 @@ func c18Build(sc c18Scenario, run c18Run) Case {
 	if sc.Min {
 		cfg.Modules = []string{"auth", "otp", "logout", "recover"}
 		cfg.Setups = []string{"totp", "sms", "recovery"}
-		cfg.Middleware, cfg.OneTimeTOTP, cfg.Providers, cfg.ModuleList = "", false, nil, false
+		cfg.Middleware, cfg.OneTimeTOTP, cfg.Providers, cfg.ModuleList = "", sc.OneTime, nil, false
 		for i := range cfg.Accounts {
 			cfg.Accounts[i].Unconfirmed = false
 		}
